@@ -5,9 +5,11 @@
    text of the motion configuration are below / beside these layers and are exercised end to end
    (config.toml + socket bytes -> real ParseConfig/handleConn -> files decoded with the standard
    reader, compared with the composed model of model/System.v). *)
+From Coq Require Import String.
 From Coq Require Import List ZArith Bool Arith.
 From TR Require Import model.Writer model.Cptv model.Codec proofs.CptvProofs proofs.CodecProofs.
 (* constants and wiring read from the Go sources on every run *)
+From TR Require Import model.GoSem model.FileRec model.FileExt translated.FileRecorder proofs.TieFile.
 From TR Require Import proofs.FactsDeps.
 Import ListNotations.
 Open Scope Z_scope.
@@ -70,3 +72,13 @@ Theorem C11_pixel_codec_seq : forall rows cols frames prev,
     Forall (fun f => length f = Z.to_nat (rows * cols) /\ pixels_ok f) frames ->
     roundtrip_seq cols (Z.to_nat (rows * cols)) prev frames = Some frames.
 Proof. exact codec_roundtrip_seq. Qed.
+
+(* ---- source tie: what cptvfilerecorder.go (as it is now) hands to the CPTV writer ----
+   For every well-formed call sequence: each WriteHeader is given the motion configuration text followed by
+   the threshold of ITS OWN start and the background frame of ITS OWN start, in start order, and the header's
+   background reference is dropped afterwards. *)
+Theorem C11_source_headers : forall d cs,
+    fcalls_wf false cs = true ->
+    let w := snd (src_frun d cs) in
+    headers_of w = expected_headers cs /\ fw_hdr_bg w = -1.
+Proof. exact tie_file_headers. Qed.
